@@ -117,3 +117,34 @@ func c07loop(extra bool) {
 		}
 	}
 }
+
+// H_C07_output_selection: command-line output selections on the same three-generation graph:
+// -no-outputs-for Simhyd (no Simhyd outputs dataset, its states still written, Muskingum
+// unaffected), -inputs-for Simhyd (its final inputs are written although it has nodes in
+// generation 0), -no-inputs-for Muskingum (its final inputs are not written).
+//vsym:prop=C07 tier=quick ints=int floats=real timeout=60 maxruns=200
+func H_C07_output_selection() {
+	g := c07makeGraph(false)
+	*noOutputsFor, *inputsFor, *noInputsFor = "Simhyd", "Simhyd", "Muskingum"
+	run_simulation([]string{g.fn, g.out})
+	*noOutputsFor, *inputsFor, *noInputsFor = "", "", ""
+	vsym.Reach("simulated")
+	_, e1 := (io.H5RefFloat64{Filename: g.out, Dataset: "/MODELS/Simhyd/outputs"}).Load()
+	sst, e2 := (io.H5RefFloat64{Filename: g.out, Dataset: "/MODELS/Simhyd/states"}).Load()
+	sin, e3 := (io.H5RefFloat64{Filename: g.out, Dataset: "/MODELS/Simhyd/inputs"}).Load()
+	_, e4 := (io.H5RefFloat64{Filename: g.out, Dataset: "/MODELS/Muskingum/outputs"}).Load()
+	_, e5 := (io.H5RefFloat64{Filename: g.out, Dataset: "/MODELS/Muskingum/inputs"}).Load()
+	vsym.Assert(e1 != nil, "excluded-outputs-not-written")
+	vsym.Assert(e2 == nil, "states-written-regardless-of-output-selection")
+	vsym.Assert(e3 == nil, "requested-final-inputs-written")
+	vsym.Assert(e4 == nil, "other-model-outputs-unaffected")
+	vsym.Assert(e5 != nil, "excluded-final-inputs-not-written")
+	if e2 == nil && e3 == nil {
+		vsym.Assert(sst.Len(0) == 2 && sin.Len(0) == 2, "datasets-sized-by-total-node-count")
+		for c := 0; c < 2; c++ {
+			for i := 0; i < 2; i++ {
+				vsym.Assert(sin.Get([]int{c, i, 0}) == g.si.Get3(c, i, 0), "final-inputs-of-unlinked-nodes-are-the-stored-inputs")
+			}
+		}
+	}
+}
